@@ -91,6 +91,39 @@ def stop_under_load(tier, out, wd):
     return acc, nev
 
 
+def prefix_lanes(tier, out, wd):
+    """one remote uses two lanes of which one's name is a prefix of the other's (val / val2), alternating between them in
+    both orders with every kind of frame (linked, event, synced, unlinked, lane-not-found for `va`): every frame must
+    carry the lane that produced it."""
+    scripts = []
+    v = [700]
+
+    def nxt():
+        v[0] += 1
+        return v[0]
+    for a, b in (("val2", "val"), ("val", "val2")):
+        for first in ("link", "sync"):
+            for second in ("link", "sync"):
+                for cap in (4096, 24):
+                    acts = [{"k": "attach", "r": 1, "cap": cap}, {"k": "attach", "r": 2, "cap": 4096},
+                            {"k": "send", "r": 1, "lane": a, "op": first}, {"k": "send", "r": 1, "lane": b, "op": second}]
+                    for i in range(3):
+                        acts.append({"k": "send", "r": 2, "lane": a, "op": "cmd", "m": "set", "v": nxt()})
+                        acts.append({"k": "send", "r": 2, "lane": b, "op": "cmd", "m": "set", "v": nxt()})
+                    acts += [{"k": "send", "r": 1, "lane": "va", "op": "link"},
+                             {"k": "send", "r": 1, "lane": a, "op": "unlink"}, {"k": "send", "r": 1, "lane": b, "op": "sync"},
+                             {"k": "send", "r": 2, "lane": a, "op": "cmd", "m": "set", "v": nxt()},
+                             {"k": "send", "r": 2, "lane": b, "op": "cmd", "m": "set", "v": nxt()},
+                             {"k": "send", "r": 1, "lane": b, "op": "unlink"}, {"k": "send", "r": 1, "lane": a, "op": "link"},
+                             {"k": "read", "r": 1, "n": 0}]
+                    scripts.append(acts)
+    cases, results = e2e.run_scripts(wd, scripts, {"store": False}, tag="runX")
+    acc, rej, nev = e2e.validate_cases(out, "C04", "Trace_LinkProtocol", cases, results, e2e.proj_link, CONSTS, wd,
+                                       "link protocol (lane names that are prefixes of each other)", tag="tvX")
+    core.log("[C04] prefix lane names: %d scripts, %d projected events, accepted=%d rejected=%d" % (len(cases), nev, acc, rej))
+    return acc, nev
+
+
 def run(tier, out):
     wd = core.workdir("C04")
     agent_loop_b3(out, wd)
@@ -111,6 +144,9 @@ def run(tier, out):
     tot_cases += a
     tot_events += n
     a, n = stop_under_load(tier, out, wd)
+    tot_cases += a
+    tot_events += n
+    a, n = prefix_lanes(tier, out, wd)
     tot_cases += a
     tot_events += n
     # demand, demand-map and HTTP lanes (Trace_Demand, Trace_Http; the link protocol applies to every lane kind)
